@@ -136,7 +136,9 @@ End Reader.
 
 Inductive send_path := PSendMessage | PQueueMessage | PQueueMessages.
 
-(* every message becomes one frame, obfuscated on its own (fresh key), written in order *)
+(* every message becomes one frame, obfuscated on its own (fresh key), handed to the transport in ONE
+   write before the sending coroutine can be suspended (so concurrent senders -- asyncio.gather of
+   send_message, one task per queue_message -- cannot interleave inside a frame), in call order *)
 Definition frames_on_wire (obf : bool) (kfs : list (bytes * bytes)) : bytes :=
   concat (map (fun kf => wire_encode obf (fst kf) (snd kf)) kfs).
 
@@ -150,7 +152,7 @@ Definition joined_on_wire (obf : bool) (kfs : list (bytes * bytes)) : bytes :=
 (* [kfs] = (key drawn by obfuscation.encode, serialised frame) per message, in call order.  The shape
    decisions come from SlskGen.ConnGen (translate/tr_conn.py). *)
 Definition sent_wire (p : send_path) (obf : bool) (kfs : list (bytes * bytes)) : bytes :=
-  let per_call := if andb one_frame_per_send_message frame_obfuscated_on_its_own
+  let per_call := if andb (andb one_frame_per_send_message frame_written_in_one_piece) frame_obfuscated_on_its_own
                   then frames_on_wire obf kfs else joined_on_wire obf kfs in
   match p with
   | PSendMessage => per_call
